@@ -207,7 +207,7 @@ func c10rMatch(want, got c10rOut) bool {
 func c10rStatusOf(term string) c10rOut {
 	err, kind := c10rErr(term)
 	o := c10rOut{Kind: "status", Status: kind}
-	if kind == "failure" && err != nil {
+	if c10KindHas(kind, "failure") && err != nil {
 		o.Msg = err.Error()
 	}
 	return o
@@ -362,7 +362,8 @@ func c10rJudge(env *c10rEnv, st c10rStep, slot *c10rSlot, calls []c10rCall, got 
 		case cerr != nil && !errors.Is(cerr, io.EOF):
 			alts = []c10rOut{c10rStatusOf(c.Err)}
 		case c.N == 0:
-			alts = []c10rOut{status("notexist|eof|failure")}
+			// no entry and no error other than end-of-file: "no such file", or the end-of-file the lister gave
+			alts = []c10rOut{status("notexist|eof")}
 		default:
 			alts = c10rRule(1, c.Err, payloadOf(c.Ents[0]))
 		}
